@@ -23,7 +23,6 @@ rounding; the theorems give the exact identity (efficient score = GLM score, row
 -/
 import ZepidVerif.Model.Tmle
 import ZepidVerif.Lemmas.Tmle
-import ZepidVerif.Lemmas.TmleFitBridge
 import Mathlib.Algebra.Order.Field.Basic
 import Mathlib.Algebra.Order.Field.Rat
 import Mathlib.Algebra.Order.AbsoluteValue.Basic
@@ -268,69 +267,6 @@ theorem unit_roundtrip_clip (y mini maxi cb : F) (hmm : mini < maxi) (h0 : 0 ≤
   split_ifs with a b b <;> constructor <;> nlinarith
 
 /-! ### non-vacuity on a small rational data set (σ = lg = identity, so everything is exact) -/
-
-/-- four rows: two treated, two untreated, one of each with outcome 1; initial fit 1/4, g = 1/2, and
-    coefficients (1/8, −1/8) move every prediction to 1/2, which solves the score equations -/
-def exRows : List (TRow ℚ) :=
-  [⟨true, true, 1, 1/4, 1/4, 1/2, 1/2⟩, ⟨true, true, 0, 1/4, 1/4, 1/2, 1/2⟩,
-   ⟨false, true, 1, 1/4, 1/4, 1/2, 1/2⟩, ⟨false, true, 0, 1/4, 1/4, 1/2, 1/2⟩,
-   ⟨true, false, 0, 1/4, 1/4, 1/2, 1/2⟩]
-
-example : scoreH1 id id (1/8) (-1/8) exRows = 0 ∧ scoreH0 id id (1/8) (-1/8) exRows = 0 ∧
-    qstarA id id (1/8) (-1/8) ⟨true, true, 1, 1/4, 1/4, 1/2, 1/2⟩ = 1/2 := by
-  simp only [scoreH1, scoreH0, exRows, obsRows, List.filter, sumBy, qstarA, h1, h0, qa, ind, id]; norm_num
-
-example : eff1 id id (1/8) exRows = 0 ∧ eff0 id id (-1/8) exRows = 0 := by
-  have h := score_equations id id (1/8) (-1/8) exRows
-    (by simp only [scoreH1, exRows, obsRows, List.filter, sumBy, qstarA, h1, h0, qa, ind, id]; norm_num)
-    (by simp only [scoreH0, exRows, obsRows, List.filter, sumBy, qstarA, h1, h0, qa, ind, id]; norm_num)
-  exact ⟨h.1, h.2.1⟩
-
-example : rdOf ([⟨3/4, 1/4⟩, ⟨1/2, 1/4⟩] : List (QS ℚ)) = 5/8 - 1/4 ∧
-    ateOf 10 20 ([⟨3/4, 1/4⟩, ⟨1/2, 1/4⟩] : List (QS ℚ)) = 10 * (5/8 - 1/4) := by
-  simp only [rdOf, ateOf, mean, sumBy, tmle_unit_unbound, List.length]; norm_num
-
-example : tmle_unit_unbound (tmle_unit_bounds (13 : ℚ) 10 20 (1/2000)) 10 20 = 13 :=
-  unit_roundtrip 13 10 20 (1/2000) (by norm_num) (by norm_num) (by norm_num)
-
-example : |tmle_unit_unbound (tmle_unit_bounds (10 : ℚ) 10 20 (1/2000)) 10 20 - 10| ≤ 1/2000 * (20 - 10) :=
-  unit_roundtrip_clip 10 10 20 (1/2000) (by norm_num) (by norm_num) (by norm_num) (by norm_num) (by norm_num)
-
-/-! ### Tie to the source: `TMLE.fit` regenerated on every run computes the model -/
-
-/-- The definition regenerated from the text of `TMLE.fit` (binary outcome: clever covariates, targeted predictions,
-    plug-ins, the three influence curves, standard errors and limits) returns exactly what the model `fitBinary`,
-    `zalpha`, `ciLin`, `ciLog` returns — so every theorem of this file, of C02 and of C06 about the model is a theorem
-    about the code as it is written today. -/
-theorem tmle_fit_generated_binary [Transc F] (σ lg ppf : F → F) (alpha e1 e2 mini maxi : F) (l : List (TRow F)) :
-    tmle_fit_binary σ lg ppf false alpha e1 e2 mini maxi l (fun r => r.g1) (fun r => r.g0) (fun _ => 1) (fun _ => 1) qa
-      = ((fitBinary σ lg e1 e2 l).rd, (fitBinary σ lg e1 e2 l).rdSe,
-         ciLin (fitBinary σ lg e1 e2 l).rd (zalpha ppf alpha) (fitBinary σ lg e1 e2 l).rdSe,
-         (fitBinary σ lg e1 e2 l).rr, (fitBinary σ lg e1 e2 l).rrSe,
-         ciLog (fitBinary σ lg e1 e2 l).rr (zalpha ppf alpha) (fitBinary σ lg e1 e2 l).rrSe,
-         (fitBinary σ lg e1 e2 l).or_, (fitBinary σ lg e1 e2 l).orSe,
-         ciLog (fitBinary σ lg e1 e2 l).or_ (zalpha ppf alpha) (fitBinary σ lg e1 e2 l).orSe) :=
-  tmle_fit_binary_eq σ lg ppf alpha e1 e2 mini maxi l
-
-theorem tmle_fit_generated_continuous [Transc F] (σ lg ppf : F → F) (alpha e1 e2 mini maxi : F) (l : List (TRow F)) :
-    tmle_fit_continuous σ lg ppf false alpha e1 e2 mini maxi l (fun r => r.g1) (fun r => r.g0) (fun _ => 1) (fun _ => 1) qa
-      = ((fitContinuous σ lg e1 e2 mini maxi l).rd, (fitContinuous σ lg e1 e2 mini maxi l).rdSe,
-         ciLin (fitContinuous σ lg e1 e2 mini maxi l).rd (zalpha ppf alpha) (fitContinuous σ lg e1 e2 mini maxi l).rdSe) :=
-  tmle_fit_continuous_eq σ lg ppf alpha e1 e2 mini maxi l
-
-/-- with missing outcomes and a missingness model the generated code first forms the total probabilities `g·m`
-    (the model's `gTotal true`) and is otherwise the same function of them -/
-theorem tmle_fit_generated_useMiss [Transc F] (σ lg ppf : F → F) (alpha e1 e2 mini maxi : F) (l : List (TRow F))
-    (g1W g0W m1W m0W qaw : TRow F → F) :
-    tmle_fit_binary σ lg ppf true alpha e1 e2 mini maxi l g1W g0W m1W m0W qaw
-      = tmle_fit_binary σ lg ppf false alpha e1 e2 mini maxi l (fun r => gTotal true (g1W r) (m1W r))
-          (fun r => gTotal true (g0W r) (m0W r)) m1W m0W qaw ∧
-    tmle_fit_continuous σ lg ppf true alpha e1 e2 mini maxi l g1W g0W m1W m0W qaw
-      = tmle_fit_continuous σ lg ppf false alpha e1 e2 mini maxi l (fun r => gTotal true (g1W r) (m1W r))
-          (fun r => gTotal true (g0W r) (m0W r)) m1W m0W qaw :=
-  ⟨by simpa [gTotal] using tmle_fit_binary_useMiss σ lg ppf alpha e1 e2 mini maxi l g1W g0W m1W m0W qaw,
-   by simpa [gTotal] using tmle_fit_continuous_useMiss σ lg ppf alpha e1 e2 mini maxi l g1W g0W m1W m0W qaw⟩
-
 
 /-! ### instantiation at ℝ: `σ = 1/(1+exp(−x))`, `lg = log ∘ odds` satisfy the abstract hypotheses -/
 section Real
